@@ -82,10 +82,18 @@ def units(tier):
             us.append(('%s/%s' % (key, sc.case_name(case)), {'key': key, 'case': case, 'tier': tier}))
     us += [(n, dict(k, tier=tier, riemann=True)) for n, k in rk.units('C01', ['fan_pde'], tier) if '/SCS/' not in n]
     us.append(('ehep', {'ehep': True}))
+    us.append(('guderley', {'gud': True}))
+    us += [('sedov/geometry=%d' % j_, {'sedov': j_}) for j_ in (1, 2, 3)]
     return us
 
 
-def run_unit(name, key=None, case=None, tier='quick', riemann=False, pat=None, fam=None, ehep=False):
+def run_unit(name, key=None, case=None, tier='quick', riemann=False, pat=None, fam=None, ehep=False, gud=False, sedov=None):
+    if sedov:
+        from props import sedov_kit
+        return sedov_kit.unit(sedov)
+    if gud:
+        from props import guderley_kit
+        return guderley_kit.unit_pde()
     if ehep:
         from props import ehep_kit
         return ehep_kit.unit('C01')
